@@ -62,6 +62,24 @@ def _replay(args):
             except Exception as ex:
                 viol.append(('mean stress transformation raised %r' % ex, {'diagram': DIAG[dg], 'R_goal': Rg, 'amplitude': amp, 'mean': mean}, None, None))
                 continue
+            # the same collective as integer-typed arrays / columns, and in other units (the transformation is homogeneous of degree one)
+            try:
+                from pylife.strength.meanstress import fkm_goodman as _fg, five_segment_correction as _fs
+                d = DIAG[dg]
+                ai, mi = np.asarray([int(x) for x in amp], dtype=np.int64), np.asarray([int(x) for x in mean], dtype=np.int64)
+                gi = _fg(ai, mi, d[1], d[2], Rg) if d[0] == 'g' else _fs(ai, mi, *d[1:], Rg)
+                fi = pd.DataFrame({'range': 2 * ai, 'mean': mi}, index=pd.Index([10 * i + 1 for i in range(len(amp))], name='element_id'))
+                acci = accessor(dg, fi, Rg)
+                if not (close(np.asarray(gi, dtype=np.float64), got, 1e-12) and close(acci, got, 1e-12)):
+                    viol.append(('integer-typed amplitudes / means give other values than the same numbers as floats', {'diagram': DIAG[dg], 'R_goal': Rg, 'amplitude': amp[:4], 'mean': mean[:4]},
+                                 np.asarray(got).tolist()[:4], [np.asarray(gi).tolist()[:4], np.asarray(acci).tolist()[:4]]))
+                for k in (2.0 ** -30, 0.1, 1000.0):
+                    gk = plain(dg, [k * a for a in amp], [k * m for m in mean], Rg)
+                    if not close(gk, k * np.asarray(got), 1e-12 if k != 0.1 else 1e-9):
+                        viol.append(('the transformed amplitude does not scale with the unit of the stresses (factor %r)' % k, {'diagram': DIAG[dg], 'R_goal': Rg, 'amplitude': amp[:4], 'mean': mean[:4]},
+                                     (k * np.asarray(got)).tolist()[:4], np.asarray(gk).tolist()[:4]))
+            except Exception as ex:
+                viol.append(('mean stress transformation raised %r for integer-typed / rescaled input' % ex, {'diagram': DIAG[dg], 'R_goal': Rg}, None, None))
             for i, s in enumerate(sts):
                 n += 1
                 case = {'diagram': DIAG[dg], 'R_goal': Rg, 'amplitude': amp[i], 'mean': mean[i]}
